@@ -297,6 +297,12 @@ class Check:
     # -- evidence ---------------------------------------------------------------------------
     def finish(self) -> int:
         cov = dict(self.coverage)
+        if not self.assumptions:
+            # what the check trusts: the trusted base of its proof stage plus every axiom a property theorem depends on
+            self.assumptions = list(cov.get('trusted_base', []))
+            for thm, a in sorted((cov.get('print_assumptions') or {}).items()):
+                if a != 'closed':
+                    self.assumptions.append('theorem %s depends on (Print Assumptions): %s' % (thm, a))
         ev = {
             'property_id': self.prop,
             'tier': self.tier,
